@@ -31,6 +31,30 @@ Theorem C11_set_frame : forall p h v x, heap_wf h -> ref_ok h v -> ref_ok h x ->
   forall id, (id < length h)%nat -> ~ In id (visited h v p) -> nth_error h' id = nth_error h id.
 Proof. exact tf_set_frame. Qed.
 
+(* inside the containers the navigation visits only the addressed slot changes (lists: padding adds nil beyond the old length) *)
+Theorem C11_set_slot_frame : forall p h v x,
+  heap_wf h -> ref_ok h v -> ref_ok h x -> p <> [] -> forallb ok_seg p = true -> starts_ok v p -> NoDup (visited h v p) ->
+  let h' := fst (set_tf (S (length (render_path p))) h v (render_path p) x) in
+  forall q s t c, p = q ++ s :: t -> nav h v q = Ok c ->
+    match c, s with
+    | HO id, Key k => forall kvs, get_obj h id = Some kvs ->
+        exists kvs', get_obj h' id = Some kvs' /\ forall k', k' <> k -> alookup k' kvs' = alookup k' kvs
+    | HL id, Idx n => forall l, get_list h id = Some l ->
+        exists l', get_list h' id = Some l' /\
+          (forall j, j <> n -> (j < length l)%nat -> nth_error l' j = nth_error l j) /\
+          (forall j, (length l <= j)%nat -> j <> n -> (j < length l')%nat -> nth_error l' j = Some HNil)
+    | _, _ => True
+    end.
+Proof. exact tf_set_slot_frame. Qed.
+(* every other path whose navigation never reads an addressed slot still resolves to the same value *)
+Theorem C11_set_other_paths : forall p h v x,
+  heap_wf h -> ref_ok h v -> ref_ok h x -> p <> [] -> forallb ok_seg p = true -> starts_ok v p -> NoDup (visited h v p) ->
+  let h' := fst (set_tf (S (length (render_path p))) h v (render_path p) x) in
+  forall p2 v2 y, nav h v2 p2 = Ok y ->
+    (forall id s s2, In (id, s) (slots h v p) -> In (id, s2) (slots h v2 p2) -> s2 <> s) ->
+    nav h' v2 p2 = Ok y.
+Proof. exact tf_set_other_paths. Qed.
+
 (* UnsetTF on a resolvable path removes exactly the addressed field / element (later elements shift down) ... *)
 Theorem C11_unset : forall q s h v y, forallb ok_seg (q ++ [s]) = true -> nav h v (q ++ [s]) = Ok y ->
   exists c, nav h v q = Ok c /\
@@ -73,6 +97,8 @@ Print Assumptions C11_set_read_back.
 Print Assumptions C11_set_read_back_no_revisit.
 Print Assumptions C11_set_never_panics.
 Print Assumptions C11_set_frame.
+Print Assumptions C11_set_slot_frame.
+Print Assumptions C11_set_other_paths.
 Print Assumptions C11_unset.
 Print Assumptions C11_unset_frame.
 Print Assumptions C11_unset_absent_key.
